@@ -221,11 +221,11 @@ for opn, nm in ((0, 'union'), (1, 'intersection'), (2, 'difference'), (3, 'compl
            '(sets: fully, quasi; relations: fully, quasi, identity), level L in [-3,3], any incoming index; judged pointwise under the rules\' semantics of skipped levels; recursion cut' % (nm, nm))
 
 # ---------------------------------------------------------------- C17 (L2: forest / edge registries under a bounded lifecycle history)
-for k, tier, to in ((1, 'exp', 600), (2, 'exp', 900), (3, 'quick', 1500), (4, 'thorough', 5400), (5, 'thorough', 10800)):
+for k, tier, to in ((3, 'quick', 1500), (4, 'quick', 2400), (5, 'thorough', 7200), (6, 'thorough', 14400)):
     J('C17', 'c17_registry_k%d' % k, 'c17_registry.cc', 'c17_registry', units=['forest.cc', 'dd_edge.cc', 'edge_value.cc', 'policies.cc', 'error.cc'],
       defines={'NSTEPS': k}, gxx_units=['ALL'], gxx_extra=['-Wl,--allow-multiple-definition'], extra_c=[os.path.join(os.path.dirname(os.path.abspath(__file__)), '..', 'tool', 'rt', 'stub_string.c')],
-      unwind=8, unwind_re={r'^__ll2c_mem': 12}, timeout=to, tier=tier, covers=[1, 2, 3] + ([4] if k >= 4 else []),
-      desc='forest registry + root-edge registry + dd_edge attach/detach/copy/destroy (real forest.cc, dd_edge.cc) over forest records: %d nondet lifecycle steps from {create forest, destroy forest, construct edge, attach, assign, destroy edge} over 3 forests and 3 edges' % k)
+      unwind=8, unwind_re={r'^__ll2c_mem': 12}, timeout=to, tier=tier, covers=[1, 2, 3] + ([4] if k >= 4 else []), ptr_overflow=False, cut='_M_realloc_insert',
+      desc='forest registry + root-edge registry + dd_edge attach/detach/copy/destroy (real forest.cc, dd_edge.cc) over forest records: %d nondet lifecycle steps from {create forest, destroy forest, construct edge, attach, assign, destroy edge} over 3 forests and 3 edges; CBMC pointer/bounds checks on, --pointer-overflow-check off (it alone exhausts 12 GB here)' % k)
 
 # ---------------------------------------------------------------- C07 (L2: real compute table over real node headers)
 C07_UNITS = ['storage/ct_styles.cc', 'compute_table.cc', 'ct_entry_type.cc', 'ct_entry_key.cc', 'ct_entry_result.cc', 'ct_vector.cc', 'ct_initializer.cc',
